@@ -43,8 +43,8 @@ def gen_cases(ctx, n, faults=False):
              "mean": [dyadic(r, -1, 1, 8) for _ in range(dim)],
              "init": [dyadic(r, -2, 2) for _ in range(dim)],
              "momentum": [dyadic(r, -2, 2) or 0.5 for _ in range(dim)],
-             "step_size": r.choice([0.125, 0.25, 0.3, 0.5, 0.7, 1.0, 1.3]),
-             "maxdepth": r.choice([0, 1, 2, 3, 4, 5, 6]) if r.random() < 0.8 else r.randint(0, 7),
+             "step_size": r.choice([0.03125, 0.0625, 0.125, 0.125, 0.25, 0.3, 0.5, 0.7, 1.0, 1.3]),
+             "maxdepth": r.choice([0, 1, 2, 3, 4, 5, 5, 6, 6]) if r.random() < 0.8 else r.randint(0, 7),
              "seed": r.randint(0, 2 ** 32),
              "words": [str(r.getrandbits(64)) for _ in range(300)],
              "ndraws": r.choice([1, 1, 2])}
